@@ -4,6 +4,7 @@ import (
 	"fmt"
 	"go/token"
 	"go/types"
+	"regexp"
 	"regexp/syntax"
 	"strconv"
 	"strings"
@@ -601,7 +602,53 @@ func ruleAnchoredRegex(p *Prog, r *Report) {
 			}
 		}
 		if pat == "" || !usesMatch {
-			r.unk(rule, key, p.Pos(fn.Pos()), "no constant regular expression used with MatchString found in "+name)
+			// not a regular expression (a hand-written scanner, say): evaluate
+			// the predicate on every string of up to three symbols of an
+			// alphabet that has a representative of each character class of the
+			// documented grammar, and on longer probes, and compare it with the
+			// grammar
+			ref := map[string]*regexp.Regexp{
+				"isValidVarName": regexp.MustCompile(`^[A-Za-z_]\w*(\[\d+\])*$`),
+				"isEllipsis":     regexp.MustCompile(`^\.{3}(\[\d+\])?$`),
+			}[name]
+			alphabet := []string{"a", "Z", "_", "0", "9", "[", "]", ".", " ", "\n", "é", "-"}
+			var probes []string
+			probes = append(probes, "")
+			var gen func(prefix string, d int)
+			gen = func(prefix string, d int) {
+				if d == 0 {
+					return
+				}
+				for _, c := range alphabet {
+					probes = append(probes, prefix+c)
+					gen(prefix+c, d-1)
+				}
+			}
+			gen("", 3)
+			probes = append(probes, "a[1]", "a[12][3]", "a[1]x", "a[]", "a[1", "a1]", "_x9[0]", "ab_9", "a[1]\n", "\na", "a[-1]", "a[1][]", "a[[1]]",
+				"...", "...[1]", "...[12]", "....", "...[]", "...[1][2]", "...[1]\n", "...[a]", "...x", "x...", "...[1", "...1]", "..[1]", "abc...", "Var_1[10][2]")
+			evaluated := true
+			var wrong []string
+			for _, pr := range probes {
+				in := NewInterp(p)
+				out := in.Run(fn, []Val{strVal(pr)}, nil)
+				rets := out.Frame.ReturnVals()
+				if len(in.Stuck) > 0 || out.CanPanic || len(rets) != 1 || rets[0][0].K != KBool {
+					evaluated = false
+					break
+				}
+				if rets[0][0].B != ref.MatchString(pr) {
+					wrong = append(wrong, fmt.Sprintf("%q is %s, the documented grammar says %s", pr, map[bool]string{true: "accepted", false: "refused"}[rets[0][0].B], map[bool]string{true: "accepted", false: "refused"}[ref.MatchString(pr)]))
+				}
+			}
+			switch {
+			case !evaluated:
+				r.unk(rule, key, p.Pos(fn.Pos()), "no constant regular expression used with MatchString found in "+name+", and the predicate could not be evaluated on sample names")
+			case len(wrong) > 0:
+				r.bad(rule, key, p.Pos(fn.Pos()), strings.Join(firstN(wrong, 4), "; "))
+			default:
+				r.ok(rule, key, p.Pos(fn.Pos()), fmt.Sprintf("evaluated on %d names (every string of up to three symbols of a 12-symbol alphabet, and longer probes): accepts exactly what the documented grammar %s accepts, in particular nothing that merely contains a valid name", len(probes), ref))
+			}
 			continue
 		}
 		re, err := syntax.Parse(pat, syntax.Perl)
